@@ -226,8 +226,84 @@ fn plainly_ignorable(n: &RNode) -> bool {
     }
 }
 
+/// Duplicate-key policy the document is read under (`Options::duplicate_keys`).
+#[derive(Clone, Copy, PartialEq, Eq, Debug)]
+pub enum Dup {
+    Error,
+    /// later duplicate pairs are skipped (key + value consumed and ignored)
+    First,
+    /// later duplicate pairs are passed through to the target
+    Last,
+}
+
+/// For every entry: 0 = first occurrence of its key, 1 = an earlier entry has the identical key
+/// node, 2 = an earlier entry has the same key text + tag in a different style.
+fn dup_marks(entries: &[(&RNode, &RNode)]) -> Vec<u8> {
+    let fps: Vec<String> = entries.iter().map(|(k, _)| fingerprint(k)).collect();
+    let mut out = vec![0u8; entries.len()];
+    for i in 0..fps.len() {
+        for j in 0..i {
+            if fps[i] == fps[j] {
+                out[i] = if entries[i].0.shape() == entries[j].0.shape() { 1 } else { 2 };
+                break;
+            }
+        }
+    }
+    out
+}
+
+/// Effective entries of a mapping with merge keys (`<<`), by the YAML merge rule: the
+/// mapping's own entries in order, then the entries of the merged mapping(s) whose key
+/// is not present yet. `Err(class)` = a form this reference does not decide.
+fn resolve_merges(entries: &[(RNode, RNode)]) -> Result<Vec<(&RNode, &RNode)>, &'static str> {
+    let mut own: Vec<(&RNode, &RNode)> = Vec::new();
+    let mut merges: Vec<&RNode> = Vec::new();
+    for (k, v) in entries {
+        if is_merge_key(k) {
+            if node_tag(k).is_some() {
+                return Err("merge-key-tagged");
+            }
+            merges.push(v);
+        } else {
+            own.push((k, v));
+        }
+    }
+    if merges.is_empty() {
+        return Ok(own);
+    }
+    if merges.len() > 1 {
+        return Err("multiple-merge-keys");
+    }
+    let sources: Vec<&RNode> = match merges[0] {
+        m @ RNode::Map { tag: None, .. } => vec![m],
+        RNode::Seq { items, tag: None, .. } if items.iter().all(|i| matches!(i, RNode::Map { tag: None, .. })) => {
+            items.iter().collect()
+        }
+        _ => return Err("merge-value-not-a-plain-mapping"),
+    };
+    let mut seen: Vec<String> = own.iter().map(|(k, _)| fingerprint(k)).collect();
+    let own_len = seen.len();
+    let mut out = own;
+    for src in sources {
+        let RNode::Map { entries: se, .. } = src else { unreachable!() };
+        for (k, v) in resolve_merges(se)? {
+            let fp = fingerprint(k);
+            match seen.iter().position(|s| *s == fp) {
+                Some(i) if i < own_len => {} // overridden by an own entry
+                Some(_) => return Err("merge-sources-overlap"),
+                None => {
+                    seen.push(fp);
+                    out.push((k, v));
+                }
+            }
+        }
+    }
+    Ok(out)
+}
+
 pub struct Interp<'l> {
     pub leaf: &'l mut dyn Leaf,
+    pub dup: Dup,
     /// set when a bare scalar names a non-unit variant at an enum position
     /// (classifier input for violation signatures)
     pub bare_nonunit_seen: bool,
@@ -244,6 +320,13 @@ pub struct Interp<'l> {
 
 impl Interp<'_> {
     pub fn interp(&mut self, ty: &Ty, n: &RNode) -> Expect {
+        if n.has_alias() {
+            // anchors/aliases are transparent: judge the alias-free expansion (by anchor id)
+            return match n.expand() {
+                Some(x) => self.go(ty, &x, false),
+                None => Expect::Unspecified("alias-without-earlier-anchor"),
+            };
+        }
         self.go(ty, n, false)
     }
 
@@ -291,13 +374,22 @@ impl Interp<'_> {
             Ty::Map(k, v) => match n {
                 RNode::Map { entries, .. } => {
                     let mut c = Comb::default();
-                    match key_check(entries) {
-                        Keys::Merge => c.unspecified("merge-key"),
-                        Keys::Duplicate => c.fail("duplicate-key"),
-                        Keys::DuplicateModuloStyle => c.unspecified("duplicate-key-modulo-style"),
-                        Keys::Fine => {}
+                    if entries.iter().any(|(k, _)| is_merge_key(k)) {
+                        c.unspecified("merge-key");
                     }
-                    for (kn, vn) in entries {
+                    let refs: Vec<(&RNode, &RNode)> = entries.iter().map(|(a, b)| (a, b)).collect();
+                    let marks = dup_marks(&refs);
+                    for ((kn, vn), m) in entries.iter().zip(marks) {
+                        match (m, self.dup) {
+                            (0, _) | (1, Dup::Last) => {}
+                            (2, _) => c.unspecified("duplicate-key-modulo-style"),
+                            (_, Dup::Error) => {
+                                c.fail("duplicate-key");
+                                continue;
+                            }
+                            (_, Dup::First) => continue, // pair skipped entirely
+                            _ => {}
+                        }
                         let saved = self.tail_ctx.replace("map-key");
                         let ke = self.go(k, kn, false);
                         self.tail_ctx = saved;
@@ -413,14 +505,13 @@ impl Interp<'_> {
         match n {
             RNode::Map { entries, .. } => {
                 let mut c = Comb::default();
-                let keys = key_check(entries);
-                match keys {
-                    Keys::Merge => c.unspecified("merge-key"),
-                    Keys::DuplicateModuloStyle => c.unspecified("duplicate-key-modulo-style"),
-                    _ => {}
-                }
+                let eff = match resolve_merges(entries) {
+                    Ok(v) => v,
+                    Err(class) => return Expect::Unspecified(class),
+                };
+                let marks = dup_marks(&eff);
                 let mut slots: Vec<Option<Expect>> = vec![None; f.fields.len()];
-                for (kn, vn) in entries {
+                for ((kn, vn), m) in eff.iter().zip(marks) {
                     let name = match kn {
                         RNode::Scalar { value, style, tag, .. }
                             if matches!(tag_kind(tag.as_deref()), TagKind::None)
@@ -433,9 +524,23 @@ impl Interp<'_> {
                             continue;
                         }
                     };
+                    match (m, self.dup) {
+                        (0, _) | (1, Dup::Last) => {}
+                        (2, _) => {
+                            c.unspecified("duplicate-key-modulo-style");
+                            continue;
+                        }
+                        (_, Dup::Error) => {
+                            c.fail(if f.index_of(name).is_some() { "duplicate-field" } else { "duplicate-key" });
+                            continue;
+                        }
+                        (_, Dup::First) => continue, // later duplicate pair skipped entirely
+                        _ => {}
+                    }
                     match f.index_of(name) {
                         Some(i) => {
                             if slots[i].is_some() {
+                                // passed through under LastWins: derived code reports duplicate_field
                                 c.fail("duplicate-field");
                             } else {
                                 slots[i] = Some(self.go(&f.fields[i].ty, vn, false));
@@ -449,9 +554,6 @@ impl Interp<'_> {
                             }
                         }
                     }
-                }
-                if keys == Keys::Duplicate {
-                    c.fail("duplicate-key");
                 }
                 for (i, s) in slots.into_iter().enumerate() {
                     match s {
